@@ -7,6 +7,9 @@ Two kinds of extraction:
   `Sandbox._execute` is walked statement by statement into the handler ladder
   `pre; try body; except clauses; else; finally; post`.  A statement the walker does not recognise becomes
   `Act.unknown` (the well-formedness check in PedalProofs/C05.lean then fails) - it is never dropped.
+  `Sandbox._import` (import of another student file during an execution) is scanned for the three facts the
+  model relies on: its `exec` sits inside the tracer's `with`, it has no `try`, it calls none of the mocking /
+  capturing methods.
 * Probes (behaviour of small units, robust against refactoring): `_start_mocking` / `_stop_mocking` /
   `_stop_patches` / `_reset_builtins` are called on a fresh Sandbox and the borrowed globals are compared;
   every tracer style is entered/left around a pre-installed trace function; `ExpandedTraceback.line_number`
@@ -148,6 +151,28 @@ def walk_execute(func_src):
     return parts, notes
 
 
+MOCKING_METHODS = ("_start_mocking", "_stop_mocking", "_start_patches", "_stop_patches", "_capture_exception")
+
+
+def walk_import(func_src):
+    """-> {"reentersTracer", "hasHandlers", "touchesMocking"} for Sandbox._import."""
+    fn = ast.parse(textwrap.dedent(func_src)).body[0]
+    nodes = list(ast.walk(fn))
+    has_try = any(isinstance(n, (ast.Try, getattr(ast, "TryStar", ast.Try))) for n in nodes)
+    touches = any(_is_self_call(n, m) for n in nodes for m in MOCKING_METHODS)
+    traced_execs, all_execs = 0, sum(1 for n in nodes if _is_name_call(n, "exec"))
+    for n in nodes:
+        if isinstance(n, ast.With):
+            for item in n.items:
+                ce = item.context_expr
+                if (isinstance(ce, ast.Call) and isinstance(ce.func, ast.Attribute) and ce.func.attr == "as_filename"
+                        and _self_attr(ce.func.value, "trace")):
+                    traced_execs += sum(1 for m in ast.walk(n) if _is_name_call(m, "exec"))
+    # an `exec` outside the tracer next to one inside would need a finer model: say "re-enters" (the weaker claim)
+    return {"reentersTracer": traced_execs > 0, "hasHandlers": has_try, "touchesMocking": touches,
+            "execs": all_execs}
+
+
 # --------------------------------------------------------------------------
 # probes
 
@@ -251,26 +276,42 @@ def probe_tracers():
     old = sys.gettrace()
     try:
         for name in sorted(TRACER_STYLES):
-            installs, restores = False, True
-            for raising in (False, True):
-                try:
-                    tr = TRACER_STYLES[name]()
-                except Exception:
-                    installs, restores = False, False
-                    break
-                sys.settrace(dummy)
-                inside = None
-                try:
-                    with tr.as_filename("answer.py", "x = 1\n"):
-                        inside = sys.gettrace()
-                        if raising:
-                            raise KeyError("probe")
-                except KeyError:
-                    pass
-                after = sys.gettrace()
-                installs = installs or (inside is not dummy)
-                restores = restores and (after is dummy)
-            out.append((name, installs, restores))
+            installs, restores, nested_ok = False, True, True
+            for nested in (False, True):
+                for raising in (False, True):
+                    try:
+                        tr = TRACER_STYLES[name]()
+                    except Exception:
+                        installs, restores, nested_ok = False, False, False
+                        break
+                    sys.settrace(dummy)
+                    inside = None
+                    try:
+                        with tr.as_filename("answer.py", "x = 1\n"):
+                            inside = sys.gettrace()
+                            if nested:
+                                # what Sandbox._import does when the running code imports another student file
+                                with tr.as_filename("helper.py", "y = 2\n"):
+                                    if raising:
+                                        raise KeyError("probe")
+                            elif raising:
+                                raise KeyError("probe")
+                    except KeyError:
+                        pass
+                    except Exception:
+                        # the style cannot be re-entered at all
+                        if nested:
+                            nested_ok = False
+                        else:
+                            restores = False
+                    after = sys.gettrace()
+                    sys.settrace(None)
+                    installs = installs or (inside is not dummy)
+                    if nested:
+                        nested_ok = nested_ok and (after is dummy)
+                    else:
+                        restores = restores and (after is dummy)
+            out.append((name, installs, restores, restores and nested_ok))
     finally:
         sys.settrace(old)
     return out
@@ -389,6 +430,7 @@ def translate():
     from pedal.sandbox.sandbox import Sandbox
     from pedal.sandbox.feedbacks import EXCEPTION_FF_MAP, runtime_error
     parts, notes = walk_execute(inspect.getsource(Sandbox._execute))
+    imp = walk_import(inspect.getsource(Sandbox._import))
     mock = probe_mocking()
     tracers = probe_tracers()
     strategy, strategy_obs = probe_line_strategy()
@@ -420,6 +462,11 @@ def translate():
         lines.append("-- translator note: " + n.replace("\n", " "))
     lines += [
         "",
+        "/-- `Sandbox._import` (another student file imported while `_execute` runs), from its AST. -/",
+        "def importDef : ImportDef :=",
+        "  { reentersTracer := %s, hasHandlers := %s, touchesMocking := %s }" % (
+            b(imp["reentersTracer"]), b(imp["hasHandlers"]), b(imp["touchesMocking"])),
+        "",
         "/-- `_start_mocking` / `_stop_mocking` / `_stop_patches` / `_reset_builtins`, probed on a fresh Sandbox. -/",
         "def mockProbe : MockProbe :=",
         "  { startPushesStdout := %d, startPushesPatches := %d," % (mock["startPushesStdout"], mock["startPushesPatches"]),
@@ -430,9 +477,11 @@ def translate():
         "    stopPatchesEmptyRaises := %s, popStdoutEmptyRaises := %s, builtinsPrivate := %s }" % (
             b(mock["stopPatchesEmptyRaises"]), b(mock["popStdoutEmptyRaises"]), b(mock["builtinsPrivate"])),
         "",
-        "/-- `TRACER_STYLES`, each probed around a pre-installed trace function (normal and raising exit). -/",
+        "/-- `TRACER_STYLES`, each probed around a pre-installed trace function (normal and raising exit; entered",
+        "    once, and re-entered inside its own `with` as `_import` does). -/",
         "def traceStyles : List TraceStyle := " + lean_list(
-            ["{ name := %s, installs := %s, restores := %s }" % (lean_str(n), b(i), b(r)) for n, i, r in tracers]),
+            ["{ name := %s, installs := %s, restores := %s, restoresNested := %s }" % (lean_str(n), b(i), b(r), b(rn))
+             for n, i, r, rn in tracers]),
         "",
         "/-- Exception-object hazards that make `Sandbox.run` raise (one probe program each). -/",
         "def unguarded : List Hazard := " + lean_list(["." + h for h in unguarded]),
@@ -459,7 +508,7 @@ def translate():
     changed = write_if_changed(path, src)
     return {"file": "PedalModel/Gen/SandboxExecGen.lean", "sha1": hashlib.sha1(src.encode()).hexdigest()[:12],
             "changed": changed, "notes": notes, "unguarded": unguarded, "line_strategy": strategy,
-            "tracers": tracers}
+            "tracers": tracers, "import": imp}
 
 
 if __name__ == "__main__":
